@@ -118,6 +118,9 @@ public:
 	bool flush();
 
 private:
+	// Check that at least len bytes are left in the file after the current position
+	bool haveRemaining(unsigned long len);
+
 	// The file path
 	std::string path;
 
